@@ -181,7 +181,7 @@ def round_oracle(mode, files, same, evs, alone):
 
 # ------------------------------------------------------- colour and cwd -----
 
-def run_rt_env(lines, no_color, tty, cwd=None):
+def run_rt_env(lines, no_color, tty, cwd=None, extra_env=None):
     exe = os.path.join(vlib.VERIF, "harness", "rt", "target", "debug", "rt")
     env = dict(vlib.ENV)
     env["RT_TMP"] = os.path.join(vlib.WORK, "tmp")
@@ -189,6 +189,8 @@ def run_rt_env(lines, no_color, tty, cwd=None):
     env.pop("NO_COLOR", None)
     if no_color:
         env["NO_COLOR"] = "1"
+    if extra_env:
+        env.update(extra_env)
     data = ("\n".join(lines) + "\n").encode()
     if tty:
         master, slave = pty.openpty()
@@ -268,6 +270,63 @@ def cwd_stream(res):
     # the model side of this stream is the theorem c17_cwd_independent (the path read is absolute);
     # there is nothing to evaluate, so the implementation is compared with its own cwd=/ run
     return vlib.correspond(res, "working-directory", cases, impl, base, lambda c: c, lambda c, a: "cwd=/ " not in c + " ", oracle, samples=2)
+
+
+# ------------------------------------------------------------- environment ---
+
+STANDARD_ENV = ["CARGO_MANIFEST_DIR", "CARGO_MANIFEST_PATH", "CARGO_PKG_NAME", "CARGO_CRATE_NAME", "CARGO_TARGET_DIR", "CARGO_TARGET_TMPDIR",
+                "CARGO_HOME", "CARGO_WORKSPACE_DIR", "OUT_DIR", "PWD", "OLDPWD", "HOME", "TMPDIR", "TERM", "COLORTERM", "CLICOLOR", "CLICOLOR_FORCE",
+                "FORCE_COLOR", "COLUMNS", "LINES", "RUST_BACKTRACE", "RUST_LIB_BACKTRACE", "RUST_LOG", "RUST_TEST_THREADS", "LANG", "LC_ALL", "CI",
+                "NEXTEST", "NEXTEST_RUN_ID", "INSTA_UPDATE", "INSTA_WORKSPACE_ROOT", "TRYBUILD", "ASSERT_STRUCT_COLOR", "ASSERT_STRUCT_SOURCE_ROOT"]
+
+
+def repo_env_names():
+    """every environment variable the two crates name in their sources (read at run time or at compile time)"""
+    names = set()
+    for crate in ("assert-struct", "assert-struct-macros"):
+        for p in vlib.walk(os.path.join(vlib.REPO, crate, "src"), (".rs",)):
+            txt = open(p, encoding="utf-8", errors="replace").read()
+            for m in re.finditer(r"(?:var|var_os|env!|option_env!|remove_var|set_var)\s*\(\s*\"([A-Za-z_][A-Za-z0-9_]*)\"", txt):
+                names.add(m.group(1))
+    return sorted(names)
+
+
+def env_stream(res):
+    """The report may not depend on the environment of the running process (other than NO_COLOR, by the property's own terms):
+    every variable the crates mention in their sources and a list of variables test runners / shells / terminals set is given
+    a decoy directory (which holds files of the same names with other content), `1`, and the empty string; the plain report of
+    every file must be what it is in the unperturbed environment."""
+    d = os.path.join(vlib.WORK, "tmp", "c17")
+    decoy = os.path.join(vlib.WORK, "tmp", "c17decoy")
+    os.makedirs(decoy, exist_ok=True)
+    for n, c in FILES.items():
+        open(os.path.join(decoy, n), "w").write("".join("// decoy line %d of %s in some other checkout\n" % (i, n) for i in range(1, 9)))
+    lines = setup_files() + ["colour\tN\t%s\t%s" % (hx(d), hx(f)) for f in FILES]
+    base = run_rt_env(lines, False, False)[len(FILES):]
+    names = [n for n in dict.fromkeys(repo_env_names() + STANDARD_ENV) if n != "NO_COLOR"]
+    cases, impl, want = [], [], []
+    for n in names:
+        for val in (decoy, "1", ""):
+            out = run_rt_env(lines, False, False, extra_env={n: val})[len(FILES):]
+            for i, f in enumerate(FILES):
+                cases.append("%s=%s file=%s" % (n, "<decoy dir>" if val == decoy else repr(val), f))
+                impl.append(out[i])
+                want.append(base[i])
+    allset = run_rt_env(lines, False, False, extra_env={n: decoy for n in names})[len(FILES):]
+    for i, f in enumerate(FILES):
+        cases.append("all %d variables=<decoy dir> file=%s" % (len(names), f))
+        impl.append(allset[i])
+        want.append(base[i])
+
+    def oracle(case, a):
+        i = cases.index(case)
+        if a != want[i]:
+            return "the report differs from the one produced in the unperturbed environment when %s" % case
+        return None
+    st = vlib.correspond(res, "environment", cases, impl, want, lambda c: c, lambda c, a: True, oracle, samples=2)
+    st["variables"] = len(names)
+    st["named_in_sources"] = repo_env_names()
+    return st
 
 
 # ------------------------------------------- same file!() string, different packages ---
@@ -431,6 +490,11 @@ def run(res):
     st4 = cwd_stream(res)
     if all(s["disagreements"] == 0 and s["oracle_failures"] == 0 for s in (st3, st4)):
         res.discharged.append(name)
+    name = "direct:the report does not depend on the environment variables of the running process"
+    res.obligations.append(name)
+    st5 = env_stream(res)
+    if st5["disagreements"] == 0 and st5["oracle_failures"] == 0:
+        res.discharged.append(name)
 
     res.coverage.update({
         "evaluations": len(cases) + st1["cases"] + st3["cases"] + st4["cases"],
@@ -438,7 +502,7 @@ def run(res):
         "rule": "guard: every well-bracketed history over {new, drop newest, drop oldest} up to length %s plus random longer ones; non-trivial = a nested "
                 "guard with a drop. cache: barrier-synchronised rounds of 2-12 threads formatting failures in the same / different / missing files, cold and warm; "
                 "non-trivial = a round in which two threads raced to insert the same file (%d of %d rounds). renderer: guard x NO_COLOR x pty/pipe; "
-                "cwd: four working directories" % ("6" if res.tier == "quick" else "9", races, len(cases)),
+                "cwd: four working directories; environment: every variable named in the crates' sources and ~35 set by runners, shells and terminals, each given a decoy directory / 1 / empty" % ("6" if res.tier == "quick" else "9", races, len(cases)),
         "samples": st1["samples"][:2] + st2["samples"][:2],
         "rounds_with_insert_race": races,
     })
